@@ -5,6 +5,6 @@ CHECKS['C05'] = dict(
     text='The real Reactor main loop, Peer task, Protocol, Connection, Listener and API process plumbing run on a virtual-time asyncio loop with in-memory sockets. '
          'Every execution of a default session script with at most k deviations (k=2 quick on the active configuration, k=1 on seven more - tcp.attempts=1, graceful restart, passive, peer hold time 0, local hold time 0, two neighbors of which only the first is disturbed, local-as auto where the OPEN of the peer is read before ours is sent; k=3/2 thorough) from a menu of ~20 '
          'faults and events at each of 16 macro steps is run, and six monitors check each trace: transitions within the RFC relation, ESTABLISHED only after OPEN sent + OPEN and KEEPALIVE received on that connection, '
-         'no UPDATE/EOR/ROUTE-REFRESH outside ESTABLISHED, transport closed on leaving a connected state (within 50 ms of virtual time, i.e. not a read period later, and never left open without an owner), API up/down alternation, no peer left in a connected state without an open transport; with two neighbors the undisturbed one must come up once and stay. A fraction of the executions is run twice and must be observed identically.',
+         'no UPDATE/EOR/ROUTE-REFRESH outside ESTABLISHED, transport closed on leaving a connected state (within 50 ms of virtual time, i.e. not a read period later, and never left open without an owner), API up/down alternation, no peer left in a connected state without an open transport; with two neighbors the undisturbed one must come up once and stay. A fraction of the executions is run twice and must be observed identically. A configuration in which the neighbor alone is passive (bound 2 in both tiers): no connection to it is ever opened by ExaBGP. A Hold Timer Expired is never the first message on a connection.',
     note='Trusted: the virtual loop (ordered segments, EOF/RST/EPIPE as the only transport faults, data before timers), vt/ref/wire.py framing. Outside: >k faults per run, multi-peer interaction, kernel TCP details.',
 )
